@@ -60,6 +60,37 @@ def read_order(a):
     return a.fail_order if a.op == "cas" else a.order
 
 
+def check_concurrent_tickets(ctx, fb, rule, floor=None):
+    """every public queue operation that is concurrent by construction (CONCURRENT=true, or the compensating
+    batch variants, which claim their own range by fetch_add) must never - on any path through its helpers,
+    including the compensating opposite-side operation - write a ticket counter with a plain store: a
+    non-atomic claim lets two concurrent callers own the same ticket (slot handed out twice)"""
+    n = 0
+    for fn in fb.find(pred=lambda f: is_queue_fn(f) and f.has_cfg() and f.d.get("access") == 0 and
+                      f.name in ("push", "pop", "push_n", "pop_n", "try_push", "try_pop", "try_push_n", "try_pop_n")):
+        conc = L.tparam(fn, "CONCURRENT")
+        if conc == "false":
+            continue
+        ig = IG(fn, inline=lambda fr, ev, callee: not callee.lambda_)
+        live = ig.live_nodes()
+        slot, other, fences = slot_ops(ig, live)
+        tick = [a for a in other if L.deep_find(ig, a.obj, TICKET_FIELD) is not None]
+        if conc is None and not any(a.op == "rmw" and a.node.frame.id == 0 for a in tick):
+            continue        # a forwarding overload without flags: its target is checked on its own
+        n += 1
+        plain = [a for a in tick if a.op == "store"]
+        atomic = [a for a in tick if a.op in ("rmw", "cas")]
+        bad = plain[0] if plain else None
+        ctx.ob(rule, L.short(fn), bad is None and bool(atomic), (bad.node.where if bad else fn.loc),
+               "a concurrent queue operation reaches a plain store to a ticket counter (%s): the claim is not atomic, two "
+               "concurrent callers can take the same ticket - the same slot (cached page / pooled object) is handed out "
+               "twice" % (" <- ".join(reversed(bad.node.frame.chain()[-3:])) if bad else "no atomic claim at all"),
+               site="%s@ticket" % L.short(fn))
+    if floor is not None:
+        ctx.floor(rule, n, floor, "concurrent public queue entries")
+    return n
+
+
 def run(ctx):
     fb = ctx.fb
     cs = carriers(fb)
@@ -254,6 +285,8 @@ def run(ctx):
         ctx.ob("C01.R4d", L.short(fn), bool(live_tick) and not live_store, fn.loc,
                "CONCURRENT=true blocking operation must take its ticket with fetch_add and never with load+store")
     ctx.floor("C01.R4d", n, 8, "CONCURRENT=true blocking entries")
+
+    check_concurrent_tickets(ctx, fb, "C01.R4e", floor=30)
 
     # ---- R5 who-may
     allowed_payload = ckeys
